@@ -179,13 +179,33 @@ Proof.
   intros xs H. unfold xnormal in H. apply andb_prop in H; destruct H as [_ H]. apply build_canonical, H.
 Qed.
 
+Lemma sax_of_plain_list : forall xs, Forall (fun x => xplain x = true -> sax_of x = events_of (x2t x)) xs ->
+  forallb xplain xs = true -> flat_map sax_of xs = flat_map events_of (map x2t xs).
+Proof.
+  induction 1 as [|x r Hx _ IH]; intro Hp; [reflexivity|].
+  cbn [forallb] in Hp. apply andb_prop in Hp; destruct Hp as [H1 H2].
+  cbn [flat_map map]. rewrite Hx, IH by assumption. reflexivity.
+Qed.
+
+Lemma sax_of_plain : forall x, xplain x = true -> sax_of x = events_of (x2t x).
+Proof.
+  apply (xnode_ind2 (fun x => xplain x = true -> sax_of x = events_of (x2t x))); intros; try reflexivity; try discriminate.
+  cbn [xplain] in H0. cbn [sax_of x2t events_of]. rewrite (sax_of_plain_list kids H H0). reflexivity.
+Qed.
+
+Lemma sax_of_list_plain : forall xs, forallb xplain xs = true -> sax_of_list xs = events_of_list (map x2t xs).
+Proof. intros xs H. apply sax_of_plain_list; [apply Forall_forall; intros; apply sax_of_plain; assumption | exact H]. Qed.
+
 Lemma wrap_eq_build : forall xs, xnormal xs = true ->
-  exists d, build_sax (events_of_list (map x2t xs)) = Some d
+  exists d, build_sax (sax_of_list xs) = Some d
             /\ map (strip true) d = map wstrip (wrap xs)
             /\ incr_from first_index (flat d)
             /\ incr_from wrap_first_index (wflat (wrap xs)).
 Proof.
   intros xs H. exists (fst (number_list true first_index (map x2t xs))).
+  assert (Hpl : forallb xplain xs = true).
+  { unfold xnormal in H. apply andb_prop in H; destruct H as [H _]. apply andb_prop in H; tauto. }
+  rewrite (sax_of_list_plain xs Hpl).
   pose proof (x2t_plain_events xs H) as Hb. split; [exact Hb|]. split; [|split].
   - rewrite wrap_strip. unfold xnormal in H. apply andb_prop in H; destruct H as [H _]. apply andb_prop in H; destruct H as [_ H].
     apply number_list_strip; [apply Forall_forall; intros; apply Tx_all | exact H].
